@@ -161,6 +161,22 @@ func wOr(a, b *Term, w int) *Term {
 	if disjoint(a, b) {
 		return a.Add(b)
 	}
+	// bit-fields that do not overlap: or is addition
+	if pa, ok := a.digits(); ok {
+		if pb, ok := b.digits(); ok {
+			overlap := false
+			for _, x := range pa {
+				for _, y := range pb {
+					if x.shift < y.shift+y.width && y.shift < x.shift+x.width {
+						overlap = true
+					}
+				}
+			}
+			if !overlap {
+				return a.Add(b).Recompose()
+			}
+		}
+	}
 	return WOp(w, "or", flatten("or", a, b)...)
 }
 
@@ -183,6 +199,28 @@ func wXor(a, b *Term, w int) *Term {
 	if k, ok := a.IsConst(); ok && k.Cmp(allOnes(w)) == 0 {
 		return wNot(b, w)
 	}
+	// a ^ (P·(a ^ b)) with P a 0/1 predicate factor: the masked-xor form of a conditional select
+	for i := 0; i < 2; i++ {
+		x, m := a, b
+		if i == 1 {
+			x, m = b, a
+		}
+		if pf, inner := predTimesAtom(m); inner != nil && inner.Kind == IWOp && inner.Op == "xor" && len(inner.Args) == 2 {
+			if lo, hi := pf.Bounds(); lo.Sign() >= 0 && hi.Cmp(bigOne) <= 0 {
+				var other *Term
+				if inner.Args[0].Equal(x) {
+					other = inner.Args[1]
+				} else if inner.Args[1].Equal(x) {
+					other = inner.Args[0]
+				}
+				if other != nil {
+					if r := Ite(pf, other, x); r != nil {
+						return r
+					}
+				}
+			}
+		}
+	}
 	// bit ^ bit of 0/1 values
 	if inRange(a, 1) && inRange(b, 1) {
 		if r := PXor(a, b); r != nil {
@@ -203,6 +241,15 @@ func wShr(a, s *Term, w int) *Term {
 	}
 	if r := pureFunc(func(x []*big.Int) *big.Int { return new(big.Int).Rsh(x[0], uint(n)) }, a); r != nil {
 		return r
+	}
+	// (x >> k1) >> k2 = x >> (k1+k2)
+	if at := a.SingleAtom(); at != nil && at.Kind == IWOp && at.Op == "shr" {
+		if k1, ok := at.Args[1].IsConst(); ok {
+			return wShr(at.Args[0], TInt(k1.Int64()+int64(n)), w)
+		}
+	}
+	if n >= w {
+		return TInt(0)
 	}
 	if n == w-1 {
 		// top bit.  (u | (^u & -u)) >> 63  and  (u | -u) >> 63  are "u != 0"
@@ -257,6 +304,18 @@ func wShl(a, s *Term, w int) *Term {
 		return WOp(w, "shl", a, s)
 	}
 	n := uint(k.Int64())
+	if n == 0 {
+		return a
+	}
+	// (x << a) << b = x << (a+b)
+	if at := a.SingleAtom(); at != nil && at.Kind == IWOp && at.Op == "shl" {
+		if k1, ok := at.Args[1].IsConst(); ok {
+			return wShl(at.Args[0], TInt(k1.Int64()+int64(n)), w)
+		}
+	}
+	if w > 0 && int(n) >= w {
+		return TInt(0)
+	}
 	r := a.Scale(pow2(int(n)))
 	if w == 0 || inRange(r, w) {
 		return r
@@ -372,6 +431,24 @@ func (it *Interp) binop(op token.Token, a, b Value, operandT, resT types.Type, f
 				return KBool(x == y)
 			case token.NEQ:
 				return KBool(x != y)
+			}
+		}
+	}
+	// a symbolic string against the empty string is a test of its length
+	if op == token.EQL || op == token.NEQ {
+		for i := 0; i < 2; i++ {
+			ss, k := a, b
+			if i == 1 {
+				ss, k = b, a
+			}
+			if s, ok := ss.(SymStr); ok {
+				if ks, ok := k.(KStr); ok && ks == "" {
+					r := EQZ(SymInt("len("+s.Name+")", bigZero, big.NewInt(math.MaxInt64)))
+					if op == token.NEQ {
+						r = PNot(r)
+					}
+					return predValue(r)
+				}
 			}
 		}
 	}
@@ -554,6 +631,24 @@ func (it *Interp) convert(v Value, from, to types.Type, fn *ssa.Function, pos to
 			if p := wrapPure(t, w, signed); p != nil {
 				return termValue(p)
 			}
+			if !signed && w%8 == 0 {
+				// truncation keeps the low w/8 bytes: byte(x >> 8k) is byte k of x
+				lo, _ := t.Bounds()
+				base, sh := t, 0
+				if at := t.SingleAtom(); at != nil && at.Kind == IWOp && at.Op == "shr" {
+					if k, ok := at.Args[1].IsConst(); ok && k.Int64()%8 == 0 {
+						base, sh = at.Args[0], int(k.Int64()/8)
+						lo, _ = base.Bounds()
+					}
+				}
+				if lo.Sign() >= 0 {
+					r := TInt(0)
+					for j := 0; j < w/8; j++ {
+						r = r.Add(ByteOf(base, sh+j).Scale(pow2(8 * j)))
+					}
+					return termValue(r.Recompose())
+				}
+			}
 			return TermV{WOp(w, "trunc", t)}
 		}
 	case fb != nil && tb != nil && fb.Info()&types.IsInteger != 0 && tb.Info()&types.IsFloat != 0:
@@ -579,6 +674,35 @@ func (it *Interp) convert(v Value, from, to types.Type, fn *ssa.Function, pos to
 			if s, ok := v.(AbsSlice); ok {
 				return s
 			}
+			if s, ok := v.(SymStr); ok {
+				return AbsSlice{Segs: []Seg{{Name: "str:" + s.Name, Len: SymInt("len("+s.Name+")", bigZero, big.NewInt(math.MaxInt64))}}}
+			}
+		}
+	}
+	if tb != nil && tb.Info()&types.IsString != 0 {
+		// string(b) of a buffer filled by hex.Encode
+		if sv, ok := it.asSlice(v); ok {
+			if l, isC := it.ApplyTerm(sv.Len).IsConst(); isC && l.Int64()%2 == 0 {
+				var src []*Term
+				good := true
+				for i := 0; i < int(l.Int64()); i += 2 {
+					hi, ok1 := asTerm(it.loadValue(sv.Arr.Kids[sv.Lo+i]))
+					lo, ok2 := asTerm(it.loadValue(sv.Arr.Kids[sv.Lo+i+1]))
+					if !ok1 || !ok2 {
+						good = false
+						break
+					}
+					ah, al := hi.SingleAtom(), lo.SingleAtom()
+					if ah == nil || al == nil || ah.Kind != IWOp || al.Kind != IWOp || ah.Op != "hexhi" || al.Op != "hexlo" || !ah.Args[0].Equal(al.Args[0]) {
+						good = false
+						break
+					}
+					src = append(src, ah.Args[0])
+				}
+				if good {
+					return HexStr{Bytes: src, Len: TInt(int64(len(src)))}
+				}
+			}
 		}
 	}
 	switch to.Underlying().(type) {
@@ -593,3 +717,21 @@ func (it *Interp) convert(v Value, from, to types.Type, fn *ssa.Function, pos to
 
 // WXor is the bytewise/word xor of the analysis (exported for reference constructions).
 func WXor(a, b *Term, width int) *Term { return wXor(a, b, width) }
+
+
+// predTimesAtom decomposes t = P·atom where P is a pure-predicate term and atom an integer atom shared by all monomials.
+func predTimesAtom(t *Term) (*Term, *IAtom) {
+	var atom *IAtom
+	pf := newTerm()
+	for _, m := range t.mons {
+		if m.atom == nil || (atom != nil && m.atom != atom) {
+			return nil, nil
+		}
+		atom = m.atom
+		pf.addMon(m.c, m.preds, nil)
+	}
+	if atom == nil {
+		return nil, nil
+	}
+	return pf, atom
+}
